@@ -55,7 +55,9 @@ var extraProps = map[string][]string{
 	"CODECSYM":             {"C14"},
 	// the Root is the handle of a captured version: its Link is the name the flush returned, held by the Root alone
 	// (C02: a kept Root never changes; C07: a published version is announced by name; C08: the name is the hash of what was written)
-	"ROOTFIELDS":         {"C04", "C02", "C07", "C08", "C15"},
+	// C14: the Root records the node format the version was written in; a persist that drops it re-writes a legacy tree in the default format (C14-m43)
+	"ROOTFIELDS":         {"C04", "C02", "C07", "C08", "C15", "C14"},
+	"NAVCOMMIT":          {"C10"}, // a placement (Min/Max/Ceil) or step that fails half-way and is retried must land where the sorted sequence says: a cursor emptied by a failed Max reports 'no entry' on a non-empty tree (C10-m42)
 	"KEYOPAQUE":          {"C09", "C04"}, // keys ordered natively in one place and by the configured comparator elsewhere end up out of order in persisted nodes
 	"ROOTEXACT":          {"C01"},        // a legal stored node that is refused makes every operation on the reloaded tree fail
 	"FORMATCONST_CONSTS": {"C05"},        // a default built over the caller's nil marshaler cannot persist or reload struct keys
@@ -74,7 +76,7 @@ var extraProps = map[string][]string{
 	// the later contents under the earlier root and a replica holding v1 could not load v2)
 	"OWN":        {"C01", "C04", "C05", "C08", "C09", "C12", "C13", "C06", "C07"},
 	"SHAREDPUB":  {"C01", "C04", "C05", "C08", "C09", "C12", "C13", "C06", "C07"},
-	"FLAGS":      {"C01", "C04", "C05", "C08", "C09", "C12", "C14", "C06", "C07"}, // a decoded node that forgets its stored name is written again under a new one
+	"FLAGS":      {"C01", "C04", "C05", "C08", "C09", "C12", "C14", "C06", "C07", "C03"}, // C03: the node store skips what the flags call persisted; a node marked shared while still unsaved is skipped by the other tree's persist (C03-m43) // a decoded node that forgets its stored name is written again under a new one
 	"ALIAS":      {"C01", "C04", "C05", "C08", "C09", "C12", "C13", "C11", "C06", "C07"},
 	"COMMIT":     {"C09"},               // a failed operation that leaves a half-applied change breaks the shape the next persist records
 	"NOEMPTY":    {"C13"},               // an entry-less node that gets linked is written: garbage
